@@ -77,6 +77,7 @@ pub struct Trace {
 }
 
 pub fn run_trace<K: Kit>(kit: &K, case: &StepCase) -> Result<(Drv<K>, Vec<Trace>), String> {
+    crate::watch::set_case(case.to_json());
     oxmpl::verif::arm(0);
     let mut d = Drv::new(kit, &case.params, 0.0).map_err(|r| format!("constructor: {}", r.short()))?;
     d.log.borrow_mut().budget = 400_000;
